@@ -354,6 +354,24 @@ pub fn queries(tier: Tier) -> Vec<GenQuery> {
             }
         }
     }
+    // two unique columns on one side: a row of the other side can match once through each
+    for kw in ["JOIN", "LEFT JOIN", "RIGHT JOIN", "FULL JOIN"] {
+        for on in [
+            "p.a = q.x OR p.b = q.y",
+            "p.a = q.x AND p.b = q.y",
+            "q.x = p.a OR q.y = p.b",
+            "p.a = q.x OR p.a = q.y",
+            "p.a = q.k OR p.b = q.x",
+            "p.a = q.k AND (p.b = q.x OR p.b = q.y)",
+            "NOT (p.a = q.k)",
+            "p.a = q.k OR p.b > q.x",
+        ] {
+            out.push(q(format!("SELECT q.k, q.x, p.a, p.b FROM p {kw} q ON {on}"), &["p", "q"], &["unique-propagation", "join", "on-bool"]));
+            if thorough || kw == "JOIN" {
+                out.push(q(format!("SELECT q.k, p.a FROM q {kw} p ON {on}"), &["p", "q"], &["unique-propagation", "join", "on-bool"]));
+            }
+        }
+    }
     out.push(q("SELECT id FROM users UNION ALL SELECT id FROM orders".into(), &["users", "orders"], &["unique-propagation", "setop"]));
     out.push(q("SELECT id FROM users UNION ALL SELECT id FROM users".into(), &["users"], &["unique-propagation", "setop"]));
 
